@@ -11,7 +11,8 @@
 EXTENDS Core, Json
 
 CONSTANTS Depth,      \* scenario length
-          KindBag     \* sequence of input kinds to draw from (duplicates are weights)
+          KindBag,    \* sequence of input kinds to draw from (duplicates are weights)
+          HistMode    \* TRUE: realms are configured with event history
 
 VARIABLE h            \* the inputs so far
 
@@ -51,8 +52,11 @@ O0 == [ack |-> FALSE, xme |-> "", xl |-> <<>>, el |-> <<>>, hx |-> FALSE, he |->
        xa |-> <<>>, ea |-> <<>>, dme |-> FALSE, match |-> "", invoke |-> "", dcl |-> FALSE,
        fwd |-> FALSE, tmo |-> 0, rprog |-> FALSE, mode |-> "", prog |-> FALSE, err |-> ""]
 
+F0 == [limit |-> 0, reverse |-> FALSE, from_t |-> 0, after_t |-> 0, before_t |-> 0, until_t |-> 0,
+       from_p |-> 0, after_p |-> 0, before_p |-> 0, until_p |-> 0, topic |-> <<>>]
+
 In0 == [op |-> "", s |-> "", req |-> 0, uri |-> <<>>, tag |-> "", id |-> 0, ms |-> 0, how |-> "",
-        args |-> <<>>, o |-> O0, join |-> [authid |-> "", color |-> "", feats |-> <<>>, local |-> TRUE, q |-> 0]]
+        args |-> <<>>, uri2 |-> <<>>, f |-> F0, o |-> O0, join |-> [authid |-> "", color |-> "", feats |-> <<>>, local |-> TRUE, q |-> 0]]
 
 N      == Len(h) + 1
 Tag    == "p" \o ToString(N)
@@ -182,6 +186,86 @@ GAdvance ==
        LET i == [In0 EXCEPT !.op = "advance", !.ms = ms]
        IN Step(i, AdvanceFx(Cur, ms))
 
+
+\* --------------------------------------------------------------------------
+\* meta API
+U_kicked == <<"a","p","p",".","k","i","c","k","e","d">>
+U_badreason == <<"b","a","d"," ","u","r","i">>
+SidArgs  == Sids \cup {77}
+RegArgs  == {regs[k].id : k \in DOMAIN regs} \cup {NextId(used.reg) + 3}
+SubArgs  == {subs[k].id : k \in DOMAIN subs} \cup {NextId(used.sub) + 3}
+Roles    == {"trusted", "user", "admin", "nobody"}
+Authids  == {"u1", "u2", "alice", "bob", "carol"}
+
+MetaStep(s, i0) ==
+  LET i == [i0 EXCEPT !.op = "metacall", !.s = s, !.req = N] IN
+  \E pick \in R({regs[k].id : k \in BestRegs(Cur, i.uri2)} \cup {0}) :
+    /\ MetaPre(Cur, i, pick)
+    /\ Step(i, MetaCallFx(Cur, s, N, i, <<>>, pick))
+
+GMetaSession ==
+  \E s \in J : \E which \in R(1..3) :
+    CASE which = 1 -> \E a \in R({<<>>, <<"trusted">>, <<"user", "admin">>, <<"nobody">>}) :
+                        MetaStep(s, [In0 EXCEPT !.uri = U_session_count, !.args = a])
+      [] which = 2 -> \E a \in R({<<>>, <<"trusted">>, <<"user", "admin">>}) :
+                        MetaStep(s, [In0 EXCEPT !.uri = U_session_list, !.args = a])
+      [] OTHER     -> \E id \in R(SidArgs) : MetaStep(s, [In0 EXCEPT !.uri = U_session_get, !.id = id])
+
+GMetaReg ==
+  \E s \in J : \E which \in R(1..6) : \E id \in R(RegArgs), k \in R(Keys), u \in R(Targets) :
+    CASE which = 1 -> MetaStep(s, [In0 EXCEPT !.uri = U_registration_list])
+      [] which = 2 -> MetaStep(s, [In0 EXCEPT !.uri = U_registration_lookup, !.uri2 = k[1], !.o = [O0 EXCEPT !.match = k[2]]])
+      [] which = 3 -> MetaStep(s, [In0 EXCEPT !.uri = U_registration_match, !.uri2 = u])
+      [] which = 4 -> MetaStep(s, [In0 EXCEPT !.uri = U_registration_get, !.id = id])
+      [] which = 5 -> MetaStep(s, [In0 EXCEPT !.uri = U_registration_list_callees, !.id = id])
+      [] OTHER     -> MetaStep(s, [In0 EXCEPT !.uri = U_registration_count_callees, !.id = id])
+
+GMetaSub ==
+  \E s \in J : \E which \in R(1..6) : \E id \in R(SubArgs), k \in R(Keys), u \in R(Targets) :
+    CASE which = 1 -> MetaStep(s, [In0 EXCEPT !.uri = U_subscription_list])
+      [] which = 2 -> MetaStep(s, [In0 EXCEPT !.uri = U_subscription_lookup, !.uri2 = k[1], !.o = [O0 EXCEPT !.match = k[2]]])
+      [] which = 3 -> MetaStep(s, [In0 EXCEPT !.uri = U_subscription_match, !.uri2 = u])
+      [] which = 4 -> MetaStep(s, [In0 EXCEPT !.uri = U_subscription_get, !.id = id])
+      [] which = 5 -> MetaStep(s, [In0 EXCEPT !.uri = U_subscription_list_subscribers, !.id = id])
+      [] OTHER     -> MetaStep(s, [In0 EXCEPT !.uri = U_subscription_count_suscribers, !.id = id])
+
+GKill ==
+  \E s \in J : \E which \in W(<<1, 1, 2, 3, 4>>) : \E id \in R(SidArgs), reason \in W(<<<<>>, <<>>, U_kicked, U_badreason>>),
+     role \in R(Roles), aid \in R(Authids) :
+    CASE which = 1 -> MetaStep(s, [In0 EXCEPT !.uri = U_session_kill, !.id = id, !.uri2 = reason])
+      [] which = 2 -> MetaStep(s, [In0 EXCEPT !.uri = U_session_kill_by_authid, !.args = <<aid>>, !.uri2 = reason])
+      [] which = 3 -> MetaStep(s, [In0 EXCEPT !.uri = U_session_kill_by_authrole, !.args = <<role>>, !.uri2 = reason])
+      [] OTHER     -> MetaStep(s, [In0 EXCEPT !.uri = U_session_kill_all, !.uri2 = reason])
+
+GTestament ==
+  \E s \in J : \E which \in W(<<1, 1, 1, 2>>) : \E u \in R(Targets), scope \in R({"", "destroyed", "detached"}),
+     xme \in W(<<"", "f">>), xl \in R(SidLists), kind \in R(1..3) :
+    LET o == [O0 EXCEPT !.xme = xme, !.xl = IF kind = 1 THEN xl ELSE <<>>, !.hx = kind = 1] IN
+    CASE which = 1 -> MetaStep(s, [In0 EXCEPT !.uri = U_session_add_testament, !.uri2 = u, !.how = scope,
+                                              !.tag = "T" \o ToString(N), !.o = o])
+      [] OTHER     -> MetaStep(s, [In0 EXCEPT !.uri = U_session_flush_testaments, !.how = scope])
+
+EntryTimes == UNION {{hist[k][j].t : j \in DOMAIN hist[k]} : k \in DOMAIN hist} \cup {now}
+PubArgs  == {p \in used.pub : p < 100000} \cup {77}
+
+GGetEvents ==
+  \E s \in J : \E id \in R(IF DOMAIN hist # {} THEN {subs[k].id : k \in DOMAIN hist} \cup {NextId(used.sub) + 3} ELSE SubArgs) :
+  \E kind \in R(1..12), t \in R(EntryTimes), dt \in R({-1, 0, 1}), pb \in R(PubArgs), lim \in R(1..3), u \in R(Targets) :
+    LET tt == IF t + dt > 0 THEN t + dt ELSE 1
+        f == CASE kind = 1  -> [F0 EXCEPT !.limit = lim]
+               [] kind = 2  -> [F0 EXCEPT !.reverse = TRUE]
+               [] kind = 3  -> [F0 EXCEPT !.from_t = tt]
+               [] kind = 4  -> [F0 EXCEPT !.after_t = tt]
+               [] kind = 5  -> [F0 EXCEPT !.before_t = tt]
+               [] kind = 6  -> [F0 EXCEPT !.until_t = tt]
+               [] kind = 7  -> [F0 EXCEPT !.from_p = pb]
+               [] kind = 8  -> [F0 EXCEPT !.after_p = pb]
+               [] kind = 9  -> [F0 EXCEPT !.before_p = pb]
+               [] kind = 10 -> [F0 EXCEPT !.until_p = pb]
+               [] kind = 11 -> [F0 EXCEPT !.topic = u]
+               [] OTHER     -> F0
+    IN MetaStep(s, [In0 EXCEPT !.uri = U_subscription_get_events, !.id = id, !.f = f])
+
 \* --------------------------------------------------------------------------
 \* one kind is drawn per step so that the mix does not depend on how many
 \* parameter values a kind has
@@ -201,12 +285,23 @@ GenNext ==
        [] kind = "inverr" -> GInvError
        [] kind = "leave"  -> GLeave
        [] kind = "adv"    -> GAdvance
+       [] kind = "msess"  -> GMetaSession
+       [] kind = "mreg"   -> GMetaReg
+       [] kind = "msub"   -> GMetaSub
+       [] kind = "kill"   -> GKill
+       [] kind = "tst"    -> GTestament
+       [] kind = "hist"   -> GGetEvents
        [] OTHER           -> GAdvance
 
-GenCfg(st, d) == [strict |-> st, disclose |-> d, metakill |-> TRUE, hcfg |-> <<>>, users |-> Users]
+HistCfgs == {<<[u |-> U_ab, m |-> "exact", n |-> 2]>>,
+             <<[u |-> U_a, m |-> "prefix", n |-> 3]>>,
+             <<[u |-> U_adot, m |-> "wildcard", n |-> 2], [u |-> U_ab, m |-> "", n |-> 1]>>,
+             <<[u |-> U_x, m |-> "prefix", n |-> 4], [u |-> U_a, m |-> "prefix", n |-> 1]>>}
+GenCfg(st, d, hc) == [strict |-> st, disclose |-> d, metakill |-> TRUE, hcfg |-> hc, users |-> Users]
 
 \* several initial states: the simulator draws one per behaviour
-GenInit == h = <<>> /\ \E st \in {0, 1, 2}, d \in BOOLEAN : InitWith(GenCfg(st = 2, d))
+GenInit == h = <<>> /\ \E st \in {0, 1, 2}, d \in BOOLEAN, hc \in (IF HistMode THEN HistCfgs ELSE {<<>>}) :
+                         InitWith(GenCfg(st = 2, d, hc))
 GenSpec == GenInit /\ [][GenNext]_gvars
 
 \* prints the finished scenario (evaluated on every state of the simulation)
